@@ -9,9 +9,9 @@ the rebuild: the statement tree is kept up to `par' = par && !sub`, the values a
   `okRef` of loop counts and `G` keeps `okRef` of subcircuit counts.
 * `map_printable`: **`fill_in_map` keeps a legal printable circuit printable** (`MapFiller` leaves every int / let /
   parameter alone, does not visit subcircuit counts, and does not touch the registers).
-* `let_printable_of`: the same for `fill_in_let` GIVEN that the visited counts are still `okRef` and the visited registers
-  still `okRegister` / `okMap`: a let resolves to a NUMBER, and that the rebuild refuses a non-integer count / size is a
-  fact about the builder that `Rel` does not carry (open).
+* `rebuilt_printable` reduces layer A of `fill_in_let` to: the visited counts are still `okRef` and the visited registers
+  still `okRegister` / `okMap`.  That is NOT a property of `letVal` alone: a let resolves to a NUMBER (`resolveConstant`), and
+  that the rebuild refuses a non-integer count / size is a fact about the builder that `Rel` does not carry (open).
 -/
 set_option linter.unusedVariables false
 set_option linter.unusedSimpArgs false
